@@ -944,6 +944,19 @@ class Run:
         self.handles.append(nh)
         self.mutations += 1
         self.probe("clone_ok")
+        # "an independent copy": writing into the clone's files in place must not reach the source
+        cfiles = self.model[dst_pi][jid]["files"]
+        if cfiles:
+            with self.world.observing():
+                for rel in sorted(cfiles):
+                    with O.io_open(os.path.join(self.pp[dst_pi], "workspace", jid, rel), "ab") as fh:
+                        fh.write(b"+clone")
+                    cfiles[rel] = cfiles[rel] + b"+clone"
+            if self.dir_snaps(src_pi, [jid])[jid] != b_src:
+                raise Mismatch(P, "C04:clone:not-independent",
+                               f"op {op}: appending to the files of the clone changed the source job "
+                               f"(shared storage): {sorted(cfiles)[:3]}")
+            self.probe("clone_independence_checked")
 
     # ---- sessions, caches, handle copies -----------------------------
     def op_update_cache(self, op):
